@@ -275,29 +275,23 @@ pub fn cli(args: &[String]) -> i32 {
         println!("KNOWN-FINDING: property=C16 {name}: a line ending in CR before its LF is printed without the CR ({} runs re-observed it; e.g. {ex})", c.known_findings);
     }
 
-    let mut violations = 0;
-    let mut replay_path = None;
-    if let Some((k, rs, sc, v)) = fail {
-        violations = 1;
-        eprintln!("run {k} (run_seed {rs}) violated C16: [{}] {}", v.class, v.detail);
-        let dir = root.join("min");
-        let min = cli::minimise(&sc, &v.class, &bins, &dir, crlf);
-        let mo = cli::run(&min, &bins, &dir, crlf);
-        let _ = std::fs::remove_dir_all(&root);
-        let (fsc, fv, minimised) = match mo.violation {
-            Some(mv) if mv.class == v.class => (min, mv, true),
-            _ => (sc.clone(), v.clone(), false),
-        };
-        let path = format!("{replay_dir}/C16-cli-{seed}-{k}.json");
+    // A violation is reported (replay file, result file, VIOLATION line) before it is minimised:
+    // whatever happens to the minimiser, the finding stands.
+    let violations = if fail.is_some() { 1 } else { 0 };
+    let replay_path = fail.as_ref().map(|(k, ..)| format!("{replay_dir}/C16-cli-{seed}-{k}.json"));
+    let write_replay = |path: &str, k: u64, rs: u64, fsc: &Scenario, fv: &Violation, minimised: bool| {
         let doc = json!({
             "engine": "cli", "property": "C16", "verif_seed": seed, "run": k, "run_seed": rs,
             "class": fv.class, "detail": fv.detail, "minimised": minimised,
-            "argv": describe(&fsc), "scenario": fsc,
+            "argv": describe(fsc), "scenario": fsc,
         });
         std::fs::create_dir_all(&replay_dir).ok();
-        std::fs::write(&path, serde_json::to_string_pretty(&doc).unwrap())
+        std::fs::write(path, serde_json::to_string_pretty(&doc).unwrap())
             .unwrap_or_else(|e| harness_error(&format!("write {path}: {e}")));
-        replay_path = Some(path);
+    };
+    if let (Some((k, rs, sc, v)), Some(path)) = (&fail, &replay_path) {
+        eprintln!("run {k} (run_seed {rs}) violated C16: [{}] {}", v.class, v.detail);
+        write_replay(path, *k, *rs, sc, v, false);
     }
 
     let wall = t0.elapsed().as_secs_f64();
@@ -331,8 +325,27 @@ pub fn cli(args: &[String]) -> i32 {
         "cli: {total} processes ({nenum} enumerated over {nenum_sc} scenarios) in {wall:.1}s, {} distinct scenarios, {} non-trivial, {} distinct call logs",
         scen.len(), nontriv.len(), traces.len()
     );
-    if let Some(p) = replay_path {
-        println!("VIOLATION property=C16 replay={p}");
+    if let (Some((k, rs, sc, v)), Some(path)) = (&fail, &replay_path) {
+        println!("VIOLATION property=C16 replay={path}");
+        use std::io::Write;
+        let _ = std::io::stdout().flush();
+        let dir = root.join("min");
+        let r = std::panic::catch_unwind(std::panic::AssertUnwindSafe(|| {
+            let min = cli::minimise(sc, &v.class, &bins, &dir, crlf);
+            let mo = cli::run(&min, &bins, &dir, crlf);
+            (min, mo)
+        }));
+        let _ = std::fs::remove_dir_all(&root);
+        match r {
+            Ok((min, mo)) => {
+                if let Some(mv) = mo.violation {
+                    if mv.class == v.class {
+                        write_replay(path, *k, *rs, &min, &mv, true);
+                    }
+                }
+            }
+            Err(_) => eprintln!("note: the minimiser failed; the replay file holds the original scenario"),
+        }
         return 1;
     }
     0
